@@ -30,7 +30,7 @@ class UnitList:
         if name in self.units:
             raise Exception("Reference unit alread exists:", name)
         self.units[name] = {
-            'magnitude':  unit.magnitude.value, 
+            'magnitude':  unit.magnitude.value*unit.baseunits.magnitude, 
             'dimensions': unit.baseunits.dimensions.value(),
             'value': value, 
             'units': units,
